@@ -73,13 +73,15 @@ def symmetric (k : Kind) (alpha : α) (size : Nat) : List α :=
 def resolve (symmDict : Bool) (name : String) : Option (Kind × Bool) :=
   (Kind.ofName name).map fun k => (k, symmDict && k.distinct)
 
+/-- the parameter in effect: the given one, else the documented default -/
+def effAlpha (k : Kind) (alpha : Option α) : α :=
+  alpha.getD ((k.alphaDefault : Option α).getD (ofInt 0))
+
 /-- the list a strategy denoted by `(k, symm)` returns -/
 def specList (k : Kind) (symm : Bool) (alpha : Option α) (size : Nat) : Option (List α) :=
   match alpha, (k.alphaDefault : Option α) with
   | some _, none => none                     -- no such parameter: outside the property
-  | a, d =>
-    let av : α := a.getD (d.getD (ofInt 0))
-    some (if symm then symmetric k av size else periodic k av size)
+  | _, _ => some (if symm then symmetric k (effAlpha k alpha) size else periodic k (effAlpha k alpha) size)
 
 /-- Hop-shifted sum at position `j` (`0 ≤ j < hop`) of a window `w` whose length is a multiple of
     `hop`: what overlap-add of the constant signal 1 yields in the steady state. -/
